@@ -351,3 +351,58 @@ package implementation
 //@   ensures[an-activated-spork-is-never-touched-again] forall i arr :: old(stg(context).sporkActivated)[i] ==> stg(context).sporkActivated[i] && stg(context).sporkHeight[i] == old(stg(context).sporkHeight)[i]
 //@   ensures[nothing-on-error] err != nil ==> stg(context).sporkActivated == old(stg(context).sporkActivated) && stg(context).sporkHeight == old(stg(context).sporkHeight)
 //@   modifies sendBlock.Data, MF:common/db.DB.spork*
+
+// ---- C11 / C10: the share of a pillar's reward given away is a percentage: both percentages are at most 100, otherwise the
+// backers' share exceeds the pillar's reward and the pillar's own share goes negative -----------------------------------------
+//@ func checkPillarPercentages(param) -> (err)
+//@   requires param != nil
+//@   ensures[both-at-most-100] err == nil <==> param.GiveBlockRewardPercentage <= 100 && param.GiveDelegateRewardPercentage <= 100
+//@   modifies nothing
+
+// ======================================================================================================================
+// Property C01, the token contract: the recorded total supply of a token moves exactly with what the contract mints into /
+// burns out of its own balance, and never exceeds the max supply.
+// A token is issued only with 0 < max <= the global cap, total <= max, and total == max when it is not mintable.
+//@ func checkToken(param) -> (err)
+//@   requires param.TotalSupply != nil && param.MaxSupply != nil
+//@   requires[abi-uint256] val(param.TotalSupply) >= 0 && val(param.MaxSupply) >= 0
+//@   ensures[supply-bounds] err == nil ==> 0 < val(param.MaxSupply) && val(param.MaxSupply) <= val(constants.TokenMaxSupplyBig) && val(param.TotalSupply) <= val(param.MaxSupply) && (!param.IsMintable ==> val(param.TotalSupply) == val(param.MaxSupply))
+//@   modifies nothing
+
+// Issue: a new token standard (never over an existing one), owned by the issuer; exactly the recorded total supply is minted
+// into the contract's balance and sent on to the issuer.
+//@ func IssueMethod.ReceiveBlock(p, context, sendBlock) -> (descendants, err)
+//@   requires p != nil && sendBlock != nil && sendBlock.Amount != nil
+//@   ensures-local[new-token-standard] err == nil ==> !old(stg(context).tokenHas)[tokenStandard] && stg(context).tokenOwner[tokenStandard] == sendBlock.Address
+//@   ensures-local[recorded-supply-is-what-is-minted] err == nil ==> param.TotalSupply != nil && stg(context).tokenTotal == store(old(stg(context).tokenTotal), tokenStandard, val(param.TotalSupply)) && context.balance == store(old(context.balance), tokenStandard, old(context.balance)[tokenStandard] + val(param.TotalSupply))
+//@   ensures-local[minted-amount-goes-to-the-issuer] err == nil ==> len(descendants) == 1 && descendants[0] != nil && descendants[0].Amount != nil && val(descendants[0].Amount) == val(param.TotalSupply) && descendants[0].TokenStandard == tokenStandard && descendants[0].ToAddress == sendBlock.Address
+//@   ensures[nothing-on-error] err != nil ==> len(descendants) == 0 && stg(context).tokenTotal == old(stg(context).tokenTotal) && context.balance == old(context.balance)
+//@   modifies sendBlock.Data, MF:common/db.DB.token*, context.balance
+
+// ABI round trip for the Mint call data (ASSUMED; "Mint" entry of definition.jsonToken: tokenStandard, amount, receiveAddress).
+//@ spec abidec_MintParam_Amount(n string, v int) int
+//@ spec abipack_III(n string, a0 int, a1 int, a2 int) int
+//@ assume-global[abi-roundtrip-token-mint] forall n string, a0 int, a1 int, a2 int :: abidec_MintParam_Amount(n, abipack_III(n, a0, a1, a2)) == a1
+
+// Mint: only a mintable token, only by its owner (ZNN/QSR: only by embedded contracts), only up to max - total; the recorded
+// total grows by exactly what is minted into the contract's balance and sent to the receiver.
+//@ func MintMethod.ReceiveBlock(p, context, sendBlock) -> (descendants, err)
+//@   attr uses abi-roundtrip-token-mint
+//@   requires p != nil && sendBlock != nil && sendBlock.Amount != nil
+//@   ensures-local[mintable-and-within-max] err == nil ==> old(stg(context).tokenHas)[param.TokenStandard] && old(stg(context).tokenMintable)[param.TokenStandard] && param.Amount != nil && val(param.Amount) > 0 && old(stg(context).tokenTotal)[param.TokenStandard] + val(param.Amount) <= old(stg(context).tokenMax)[param.TokenStandard]
+//@   ensures-local[by-the-owner] err == nil ==> ((param.TokenStandard == types.ZnnTokenStandard || param.TokenStandard == types.QsrTokenStandard) && sendBlock.Address[0] == 1) || (param.TokenStandard != types.ZnnTokenStandard && param.TokenStandard != types.QsrTokenStandard && old(stg(context).tokenOwner)[param.TokenStandard] == sendBlock.Address)
+//@   ensures-local[recorded-supply-grows-by-what-is-minted] err == nil ==> stg(context).tokenTotal == store(old(stg(context).tokenTotal), param.TokenStandard, old(stg(context).tokenTotal)[param.TokenStandard] + val(param.Amount)) && stg(context).tokenMax == old(stg(context).tokenMax) && context.balance == store(old(context.balance), param.TokenStandard, old(context.balance)[param.TokenStandard] + val(param.Amount))
+//@   ensures-local[minted-amount-goes-to-the-receiver] err == nil ==> len(descendants) == 1 && descendants[0] != nil && descendants[0].Amount != nil && val(descendants[0].Amount) == val(param.Amount) && descendants[0].TokenStandard == param.TokenStandard && descendants[0].ToAddress == param.ReceiveAddress
+//@   ensures[no-payment-on-error] err != nil ==> len(descendants) == 0
+//@   modifies sendBlock.Data, MF:common/db.DB.token*, context.balance
+
+// Burn: the received amount leaves the contract's balance and the recorded total (and the max of a non-mintable token) drops
+// by exactly that amount; only a burnable token or its owner.
+//@ func BurnMethod.ReceiveBlock(p, context, sendBlock) -> (descendants, err)
+//@   requires p != nil && sendBlock != nil && sendBlock.Amount != nil
+//@   ensures[no-payment] len(descendants) == 0
+//@   ensures[burnable-or-owner] err == nil ==> old(stg(context).tokenHas)[sendBlock.TokenStandard] && (old(stg(context).tokenBurnable)[sendBlock.TokenStandard] || old(stg(context).tokenOwner)[sendBlock.TokenStandard] == sendBlock.Address)
+//@   ensures[recorded-supply-drops-by-what-is-burned] err == nil ==> stg(context).tokenTotal == store(old(stg(context).tokenTotal), sendBlock.TokenStandard, old(stg(context).tokenTotal)[sendBlock.TokenStandard] - val(sendBlock.Amount)) && context.balance == store(old(context.balance), sendBlock.TokenStandard, old(context.balance)[sendBlock.TokenStandard] - val(sendBlock.Amount)) && val(sendBlock.Amount) > 0
+//@   ensures[max-follows-for-non-mintable] err == nil ==> stg(context).tokenMax == store(old(stg(context).tokenMax), sendBlock.TokenStandard, old(stg(context).tokenMax)[sendBlock.TokenStandard] - ite(old(stg(context).tokenMintable)[sendBlock.TokenStandard], 0, val(sendBlock.Amount)))
+//@   ensures[nothing-on-error] err != nil ==> stg(context).tokenTotal == old(stg(context).tokenTotal) && stg(context).tokenMax == old(stg(context).tokenMax) && context.balance == old(context.balance)
+//@   modifies sendBlock.Data, MF:common/db.DB.token*, context.balance
